@@ -2,7 +2,7 @@
 
 import ast
 
-from .. import blocks, dtypes, roles
+from .. import argbind, blocks, dtypes, roles
 from ..core import AnalysisError
 from ..src import arg_names, calls_in, unparse
 from . import c14
@@ -204,5 +204,6 @@ def run(ctx):
     c14.packing(ctx)
     dtypes.dtype_folds(ctx)
     blocks.packing_offsets(ctx)
+    argbind.solver_argument_binding(ctx)
     # the systems solved in strong form are A.strong_form(): its term (inverse mass matrix of (range, dual) times weak form) is C14's rule
     c14.homomorphism(ctx)
